@@ -12,13 +12,12 @@
      * aes_enc_contract : the AESCompressor residue machine IS a stream encoder in the
        sense of Comp.v, E = CBC-encrypt o pad16 (so compress_chain covers chains ending in
        7zAES);  aes_codec_inverse: cbc_dec (cbc_enc (pad16 x)) = pad16 x, x a prefix of it;
-     * dec_chunks_ok_regular : read schedules whose chunks all have >= 16 bytes except the
-       last, over a packed stream whose length is a multiple of 16, satisfy the condition
-       under which Aes.v proves the AESDecompressor correct (full reads with any block size
-       >= 16; multi-volume files whose volumes are not larger than the block size);
-     * aes_short_read_reachable_refuted : through the model of SevenZipDecompressor a short
-       read at a volume boundary hands the AES stage a chunk that leaves
-       0 < len(buf)+len(data) < 16 -- the call raises (ValueError in pycryptodome).
+     * mv_schedules_ok : every read schedule _read_data produces on a (multi-volume) file, for any
+       block size and volume size, satisfies the condition under which Aes.v proves the
+       AESDecompressor correct (since the repair: no empty chunk on a non-empty residue);
+       aes_short_read_delivered : through the model of SevenZipDecompressor, the short read at a
+       volume boundary that used to make the AES stage raise (0 < len(buf)+len(data) < 16) is
+       buffered and every byte is delivered.
    What is ASSUMED (Section hypotheses, named):
      enc_contract  -- each real stage encoder is a stream encoder (Comp.v);
      D_mono, stage_safe -- each real stage decoder is a monotone, prefix-safe stream decoder
@@ -57,7 +56,8 @@ Section Extract.
 
   (* The same two loops as the code stands since the repair "decoding loops spin forever when
      the stream ends before its declared size" (py7zr.py, MAX_STALLED_ROUNDS = 16):
-     Worker.decompress counts the consecutive rounds that deliver nothing and take no input
+     Worker.decompress counts the consecutive rounds that deliver nothing, take no input and in
+     which no coder of the chain puts anything out (Decomp.idle: consumed and produced unchanged)
      and raises Bad7zFile at the 17th.  [failed] marks a stage that has raised (the AES stage
      of Toy.v); a run on which a stage raised ends with Err EOther. *)
   Variable failed : dst -> bool.
@@ -78,7 +78,7 @@ Section Extract.
             let '(st'', out) := r' in
             Ok (st'', tmp ++ out)
         else
-          let idle := consumed st' =? consumed st in
+          let idle := idle st st' in
           let stalled' := if idle then stalled + 1 else stalled in
           if idle && (stalled' >? 16) then Err EBad7z
           else
@@ -117,9 +117,9 @@ Section Extract.
         destruct (gworker fuel st' (size - zlen tmp) mb (tl sched) 0) as [[st'' out]|e] eqn:Hg; [|discriminate].
         rewrite (IH _ _ _ _ _ _ Hg). exact H.
       + destruct (size <=? 0) eqn:El; [apply Z.gtb_lt in Es; apply Z.leb_le in El; lia|].
-        destruct ((consumed st' =? consumed st) &&
-                  ((if consumed st' =? consumed st then stalled + 1 else stalled) >? 16)); [discriminate|].
-        destruct (gworker fuel st' size mb (tl sched) (if consumed st' =? consumed st then stalled + 1 else stalled))
+        destruct ((idle st st') &&
+                  ((if idle st st' then stalled + 1 else stalled) >? 16)); [discriminate|].
+        destruct (gworker fuel st' size mb (tl sched) (if idle st st' then stalled + 1 else stalled))
           as [[st'' out]|e] eqn:Hg; [|discriminate].
         rewrite (IH _ _ _ _ _ _ Hg). exact H.
   Qed.
@@ -148,12 +148,12 @@ Section Extract.
 
     Lemma ended_step (st : dstate dst) (ml : Z) (rd : nat) :
       ended st -> 0 < ml ->
-      exists st', decompress dstep st ml rd = Ok (st', []) /\ ended st' /\ consumed st' = consumed st.
+      exists st', decompress dstep st ml rd = Ok (st', []) /\ ended st' /\ idle st st' = true.
     Proof.
       intros [Hst Hend] Hml.
       destruct (stuck_step dst dstep quiet quiet_step st ml rd Hst Hml) as (st' & Hd & Hst').
       exists st'. split; [exact Hd|].
-      destruct Hst as (_ & _ & _ & Hun & Hpos & _).
+      pose proof Hst as Hst0. destruct Hst as (_ & _ & _ & Hun & Hpos & _).
       assert (Hp : 0 <= pos st <= zlen (buf st)) by (pose proof (zlen_nonneg (buf st)); lia).
       destruct (decompress_spec dst dstep st st' ml rd [] Hp Hun Hd)
         as (data & tmp & _ & Hfp & Hcons & Hdl & _ & His & _).
@@ -161,7 +161,8 @@ Section Extract.
       { destruct Hend as [Hnil|Hle].
         - rewrite Hnil in Hfp. symmetry in Hfp. apply app_eq_nil in Hfp. apply Hfp.
         - apply zlen_le0_nil. lia. }
-      subst data. rewrite zlen_nil in Hcons. split; [|lia].
+      subst data. rewrite zlen_nil in Hcons.
+      split; [|exact (stuck_step_idle dst dstep quiet quiet_step st st' ml rd [] Hst0 Hml Hd)].
       split; [exact Hst'|]. destruct Hend as [Hnil|Hle]; [left|right].
       - rewrite Hnil in Hfp. simpl in Hfp. now symmetry.
       - lia.
@@ -183,7 +184,7 @@ Section Extract.
         (destruct (size >? 0) eqn:Es; [|lia]);
         (destruct (ended_step st (Z.min size mb) (sched_hd st sched) He ltac:(lia)) as (st' & Hd & He' & Hc));
         rewrite Hd; cbn [bind]; rewrite (ended_not_failed st' He');
-        change (zlen [] >? 0) with false; cbv iota; rewrite Hc, Z.eqb_refl; cbn [andb].
+        change (zlen [] >? 0) with false; cbv iota; rewrite Hc; cbn [andb].
       - replace (stalled + 1 >? 16) with true by lia. reflexivity.
       - replace (stalled + 1 >? 16) with false by lia.
         rewrite (IH fuel st' size mb (tl sched) (stalled + 1) He' Hsz Hmb ltac:(lia) ltac:(lia)).
@@ -472,7 +473,7 @@ End AesStage.
 Fixpoint dec_sizes_ok (r : Z) (sizes : list Z) : bool :=
   match sizes with
   | [] => true
-  | d :: rest => ((r =? 0) || (16 <=? r + d)) && dec_sizes_ok ((r + d) mod 16) rest
+  | d :: rest => ((r =? 0) || (0 <? d)) && dec_sizes_ok ((r + d) mod 16) rest
   end.
 
 Lemma dec_chunks_ok_sizes (chunks : list bytes) :
@@ -496,9 +497,9 @@ Proof.
   cbn [dec_sizes_ok]. destruct rest as [|d2 rest'].
   - cbn [zsum dec_sizes_ok all_but_last_ge16] in *. rewrite andb_true_r.
     apply orb_true_iff. destruct (Z.eq_dec r 0) as [->|Hne]; [left; reflexivity|right].
-    apply Z.leb_le. lia.
+    apply Z.ltb_lt. lia.
   - destruct Hall as [Hd Hall]. apply andb_true_iff. split.
-    + apply orb_true_iff. right. apply Z.leb_le. lia.
+    + apply orb_true_iff. right. apply Z.ltb_lt. lia.
     + apply IH; [apply Z.mod_pos_bound; lia| |exact Hall].
       cbn [zsum] in Hsum |- *. rewrite Z.add_mod_idemp_l by lia.
       rewrite <- Hsum. f_equal. lia.
@@ -518,50 +519,64 @@ Proof.
   cbn [concat map zsum]. rewrite Aes.blen_app, IH. reflexivity.
 Qed.
 
-(* read schedules of _read_data, by computation:
-   - one file, default block size, 3 MiB + 16 of ciphertext: regular;
-   - block size 17 (not a multiple of 16), full reads: regular;
-   - multi-volume, volumes of 70 bytes, default block size: every chunk is one volume: regular;
-   - multi-volume with volumes LARGER than the block size and not a multiple of 16 (1 MiB + 4):
-     the chunk that ends a volume has 4 bytes and meets a residue of 4: NOT ok;
-   - block size 32, volumes of 70 bytes: NOT ok (the witness used below) *)
+(* since the repair of AESDecompressor.decompress the condition only excludes an EMPTY chunk on a
+   non-empty residue: every schedule of non-empty chunks is safe ... *)
+Theorem dec_sizes_ok_positive (sizes : list Z) :
+  forall r, Forall (fun d => 0 < d) sizes -> dec_sizes_ok r sizes = true.
+Proof.
+  induction sizes as [|d rest IH]; intros r Hall; [reflexivity|].
+  inversion Hall as [|? ? Hd Hrest]; subst. cbn [dec_sizes_ok].
+  rewrite (IH _ Hrest), andb_true_r. apply orb_true_iff. right. apply Z.ltb_lt. exact Hd.
+Qed.
+
+(* ... and _read_data never hands out an empty chunk before the packed stream is exhausted, whatever
+   the block size and the volume size: EVERY read schedule on a multi-volume file is safe *)
+Lemma mv_chunks_positive (fuel : nat) : forall p n bs V, Forall (fun d => 0 < d) (mv_chunks fuel p n bs V).
+Proof.
+  induction fuel as [|f IH]; intros p n bs V; cbn [mv_chunks]; [constructor|].
+  destruct (n <=? 0); [constructor|].
+  destruct (Z.min (Z.min n bs) (V - p mod V) <=? 0) eqn:E; [constructor|].
+  constructor; [apply Z.leb_gt in E; exact E|apply IH].
+Qed.
+
+Theorem mv_schedules_ok (fuel : nat) (p n bs V : Z) : dec_sizes_ok 0 (mv_chunks fuel p n bs V) = true.
+Proof. apply dec_sizes_ok_positive, mv_chunks_positive. Qed.
+
+(* read schedules of _read_data, by computation (the last two raised ValueError before the repair:
+   volumes of 1 MiB + 4 bytes at the default block size; block size 32 with volumes of 70 bytes) *)
 Example mv_chunks_examples :
   mv_chunks 10 32 3145744 1048576 (2 ^ 62) = [1048576; 1048576; 1048576; 16] /\
-  dec_sizes_ok 0 (mv_chunks 10 32 3145744 1048576 (2 ^ 62)) = true /\
-  dec_sizes_ok 0 (mv_chunks 20 32 112 17 (2 ^ 62)) = true /\
   mv_chunks 10 32 208 1048576 70 = [38; 70; 70; 30] /\
-  dec_sizes_ok 0 (mv_chunks 10 32 208 1048576 70) = true /\
   mv_chunks 10 32 2097200 1048576 1048580 = [1048548; 1048576; 4; 72] /\
-  dec_sizes_ok 0 (mv_chunks 10 32 2097200 1048576 1048580) = false /\
+  dec_sizes_ok 0 (mv_chunks 10 32 2097200 1048576 1048580) = true /\
   mv_chunks 10 32 112 32 70 = [32; 6; 32; 32; 6; 4] /\
-  dec_sizes_ok 0 (mv_chunks 10 32 112 32 70) = false.
+  dec_sizes_ok 0 (mv_chunks 10 32 112 32 70) = true.
 Proof. vm_compute. repeat split; reflexivity. Qed.
 
-(* ---- the refutation is reachable through SevenZipDecompressor ---------------
+(* ---- short reads through SevenZipDecompressor -------------------------------------
    112 bytes of genuine ciphertext (toy cipher) at offset 32 of a multi-volume file with
-   volumes of 70 bytes, block size 32: the reads return 32, 6, 32, 32, 6, ... bytes; the
-   fifth hands AESDecompressor.decompress 6 bytes on a residue of 6 -> the stage raises.
-   With full reads the same decompressor returns the plaintext. *)
+   volumes of 70 bytes, block size 32: the reads return 32, 6, 32, 32, 6, 4 bytes; the
+   fifth hands AESDecompressor.decompress 6 bytes on a residue of 6.  Before the repair the
+   stage raised there (ValueError); now the 6 bytes are kept, the sixth read completes the
+   block, and the loop delivers all 112 bytes, exactly as with full reads. *)
 Definition rt_plain : bytes := Aes.ex_plain 112.
 Definition rt_cipher : bytes := fst (Aes.cbc_enc Aes.toyE Aes.ex_iv rt_plain).
 Definition rt_state (bs : Z) : dstate aes_dstage :=
   init_state [Ok (Aes.dinit Aes.ex_iv)] [112] 112 bs (rt_cipher ++ [23; 6; 1; 9]).
 
-Theorem aes_short_read_reachable_refuted :
-  exists (bs : Z) (calls : list (Z * nat)) (st' : dstate aes_dstage) (outs : bytes),
-    map snd calls = map Z.to_nat (firstn 5 (mv_chunks 10 32 112 bs 70)) /\
-    decompress_seq (aes_dstep Aes.toyD) (rt_state bs) calls = Ok (st', outs) /\
-    stages st' = [Err EOther] /\ zlen outs = 96 /\ zlen rt_plain = 112 /\
-    (* the same stream with full reads: every byte comes back *)
-    (exists st'', worker_decompress (aes_dstep Aes.toyD) 10 (rt_state bs) 112 1000 [] = Ok (st'', rt_plain)).
+Theorem aes_short_read_delivered :
+  (exists st', worker_decompress (aes_dstep Aes.toyD) 10 (rt_state 32) 112 1000
+                                 (map Z.to_nat (mv_chunks 10 32 112 32 70)) = Ok (st', rt_plain)) /\
+  (exists st'', worker_decompress (aes_dstep Aes.toyD) 10 (rt_state 32) 112 1000 [] = Ok (st'', rt_plain)) /\
+  (* the fifth call: six bytes on a residue of six, nothing raised, nothing delivered yet *)
+  (exists st5 outs, decompress_seq (aes_dstep Aes.toyD) (rt_state 32)
+                      [(112, 32%nat); (80, 6%nat); (80, 32%nat); (48, 32%nat); (16, 6%nat)] = Ok (st5, outs) /\
+                    zlen outs = 96 /\
+                    exists a, stages st5 = [Ok a] /\ Aes.blen (Aes.dbuf a) = 12).
 Proof.
-  exists 32, [(112, 32%nat); (80, 6%nat); (80, 32%nat); (48, 32%nat); (16, 6%nat)].
-  eexists. eexists. split; [vm_compute; reflexivity|].
-  split; [vm_compute; reflexivity|].
-  split; [vm_compute; reflexivity|].
-  split; [vm_compute; reflexivity|].
-  split; [vm_compute; reflexivity|].
-  eexists. vm_compute. reflexivity.
+  split; [eexists; vm_compute; reflexivity|]. split; [eexists; vm_compute; reflexivity|].
+  eexists. eexists. split; [vm_compute; reflexivity|]. split; [vm_compute; reflexivity|].
+  eexists. split; vm_compute; reflexivity.
 Qed.
 
 (* ===================================================================== *)
@@ -644,5 +659,6 @@ Print Assumptions roundtrip_single_stage.
 Print Assumptions aes_enc_contract.
 Print Assumptions aes_codec_inverse.
 Print Assumptions dec_chunks_ok_regular.
-Print Assumptions aes_short_read_reachable_refuted.
+Print Assumptions aes_short_read_delivered.
+Print Assumptions mv_schedules_ok.
 Print Assumptions toy_roundtrip_chain.
